@@ -22,6 +22,11 @@ func checkPartialFlagMonotone(r *Run, ap *packages.Package) {
 	const rule = "C15-R6-partial-flag-monotone"
 	info := ap.TypesInfo
 	n := 0
+	roles := findReachRoles(ap)
+	if roles.cursor == nil {
+		r.Undecide("C15-R6: the reach cursor type was not found")
+		return
+	}
 	for _, f := range ap.Syntax {
 		for _, d := range f.Decls {
 			fd, ok := d.(*ast.FuncDecl)
@@ -39,7 +44,7 @@ func checkPartialFlagMonotone(r *Run, ap *packages.Package) {
 						continue
 					}
 					fv, ok := info.Uses[sel.Sel].(*types.Var)
-					if !ok || !fv.IsField() || namedName(info.TypeOf(sel.X)) != "reachCursor" {
+					if !ok || !fv.IsField() || !roles.isCursor(info.TypeOf(sel.X)) {
 						continue
 					}
 					if b, isBasic := fv.Type().Underlying().(*types.Basic); !isBasic || b.Kind() != types.Bool {
